@@ -776,38 +776,53 @@ func runHist(d histD, origin string) (hx.Case, counter) {
 			items = append(items, "XReopen true")
 			prevTab = emitFtab()
 		case "read":
-			var res []tvObs
-			err, _ := guard(func() error {
-				var err error
-				if op.API == "cursor" {
-					res, err = w.readCursor(op)
-				} else {
-					res, err = w.readIter(op)
+			// every read is taken through BOTH read paths: the InfluxQL iterator
+			// (Shard.CreateIterator) and the array cursors (Shard.CreateCursorIterator).
+			// When the two observations are identical one term is emitted (checking it
+			// checks both), otherwise one per path.
+			hd := fmt.Sprintf("%s %s %s %s %s %s", coqStr(op.M), tagBytes(op.S), coqStr(op.F), hx.CoqZ(op.Lo), hx.CoqZ(op.Hi), hx.CoqBool(op.Asc))
+			var terms []string
+			for _, api := range []string{"iter", "cursor"} {
+				var res []tvObs
+				err, _ := guard(func() error {
+					var err error
+					if api == "cursor" {
+						res, err = w.readCursor(op)
+					} else {
+						res, err = w.readIter(op)
+					}
+					return err
+				})
+				term := "XRead " + hd + " None"
+				if err == nil && len(res) > 40 {
+					o.Count("read:long(digest)")
+					term = fmt.Sprintf("XReadD %s %d %s %s %d%%Z %d%%Z %d%%Z", hd, len(res), coqTVs(res[:8]), coqTVs(res[len(res)-8:]), digest(1000003, res), digest(998244353, res), digest(16777619, res))
+				} else if err == nil {
+					term = "XRead " + hd + " (Some " + coqTVs(res) + ")"
 				}
-				return err
-			})
-			r := "None"
-			if err == nil {
-				r = "(Some " + coqTVs(res) + ")"
-				if len(res) > 0 {
+				if err == nil && len(res) > 0 {
 					nNonEmptyReads++
 				}
+				terms = append(terms, term)
+				ob := map[string]interface{}{"read_n": len(res), "api": api}
+				if err != nil {
+					ob["err"] = fmt.Sprint(err)
+				}
+				obs = append(obs, ob)
+				o.Count(fmt.Sprintf("read:api=%s,asc=%v", api, op.Asc))
+				if len(res) == 0 {
+					o.Count("read:empty")
+				}
+				if len(res) >= 1000 {
+					o.Count("read:>=1000 points (more than one cursor batch)")
+				}
 			}
-			hd := fmt.Sprintf("%s %s %s %s %s %s", coqStr(op.M), tagBytes(op.S), coqStr(op.F), hx.CoqZ(op.Lo), hx.CoqZ(op.Hi), hx.CoqBool(op.Asc))
-			if err == nil && len(res) > 40 {
-				o.Count("read:long(digest)")
-				items = append(items, fmt.Sprintf("XReadD %s %d %s %s %d%%Z %d%%Z %d%%Z", hd, len(res), coqTVs(res[:8]), coqTVs(res[len(res)-8:]), digest(1000003, res), digest(998244353, res), digest(16777619, res)))
+			if terms[0] == terms[1] {
+				o.Count("read:both-paths-identical")
+				items = append(items, terms[0])
 			} else {
-				items = append(items, "XRead "+hd+" "+r)
-			}
-			ob := map[string]interface{}{"read_n": len(res)}
-			if err != nil {
-				ob["err"] = fmt.Sprint(err)
-			}
-			obs = append(obs, ob)
-			o.Count(fmt.Sprintf("read:api=%s,asc=%v", op.API, op.Asc))
-			if len(res) == 0 {
-				o.Count("read:empty")
+				o.Count("read:paths-differ")
+				items = append(items, terms...)
 			}
 		}
 		if w.sh == nil {
@@ -924,6 +939,7 @@ type gen struct {
 	big   bool
 	base  []int64     // time bases used by this history
 	keys  [][3]string // (measurement, series, field) written so far
+	nextF int         // next never-used field name f<nextF>
 }
 
 func (g *gen) note(pts []pointD) {
@@ -1013,7 +1029,7 @@ func (g *gen) readOp(full bool) opD {
 }
 
 func genHist(r *hx.Rand, big, dense bool) histD {
-	g := &gen{r: r, types: map[string]int{}, big: big, base: []int64{0, 10, 1000}}
+	g := &gen{r: r, types: map[string]int{}, big: big, base: []int64{0, 10, 1000}, nextF: 3}
 	d := histD{Index: "inmem"}
 	if r.Chance(35) {
 		d.Index = "tsi1"
@@ -1024,7 +1040,7 @@ func genHist(r *hx.Rand, big, dense bool) histD {
 	nops := 6 + r.Intn(14)
 	if dense { // many small blocks per key: runs of 12-40 points in separate generations, Compactor.Size 2 or 3
 		d.CSize = 2 + r.Intn(2)
-		g.base = []int64{0, 10, 40}
+		g.base = []int64{0, 20, 50, 90}
 		nops = 14 + r.Intn(10)
 	}
 	nfiles := 0
@@ -1038,6 +1054,34 @@ func genHist(r *hx.Rand, big, dense bool) histD {
 				np = 8 + r.Intn(20)
 			}
 			op := opD{Op: "write"}
+			if g.nextF < 10 && r.Chance(12) {
+				// several points of ONE batch introduce the same new field (it is the last field of each
+				// point in key order), sometimes followed at once by a restart and a read of it
+				f := fmt.Sprintf("f%d", g.nextF)
+				g.nextF++
+				m := measN[0]
+				t := g.ftype(m, f)
+				for j := 0; j < 2+r.Intn(3); j++ {
+					p := pointD{M: m, S: serN[r.Intn(len(serN))], T: g.time()}
+					if r.Chance(40) {
+						p.F = append(p.F, fieldD{N: "f0", T: g.ftype(m, "f0"), V: ""})
+						p.F[0].V = genValue(r, p.F[0].T)
+					}
+					p.F = append(p.F, fieldD{N: f, T: t, V: genValue(r, t)})
+					op.Pts = append(op.Pts, p)
+				}
+				g.note(op.Pts)
+				d.Ops = append(d.Ops, op)
+				if r.Chance(50) {
+					if inflight && r.Chance(50) {
+						d.Ops = append(d.Ops, opD{Op: "snapcommit"})
+					}
+					inflight = false
+					d.Ops = append(d.Ops, opD{Op: "reopen"})
+					d.Ops = append(d.Ops, opD{Op: "read", M: m, S: op.Pts[0].S, F: f, Lo: minT, Hi: maxT, Asc: r.Bool()})
+				}
+				break
+			}
 			for j := 0; j < np; j++ {
 				p := g.point()
 				if j > 0 && r.Chance(25) { // duplicate timestamp / same series within the batch
@@ -1057,7 +1101,7 @@ func genHist(r *hx.Rand, big, dense bool) histD {
 		case k < 44 && big:
 			m, f := measN[0], fldN[r.Intn(2)]
 			t := g.ftype(m, f)
-			n := []int{999, 1000, 1001, 1000, 2001}[r.Intn(5)]
+			n := []int{999, 1000, 1001, 1000, 2001, 250, 500, 700, 1}[r.Intn(9)] // the small ones make a 1000-slot cursor batch end inside a block
 			sr := serN[r.Intn(2)]
 			g.keys = append(g.keys, [3]string{m, sr, f})
 			d.Ops = append(d.Ops, opD{Op: "write", Runs: []runD{{M: m, S: sr, F: f, Typ: t, Start: []int64{0, 0, 500, 1000, -3, 999}[r.Intn(6)],
@@ -1071,7 +1115,11 @@ func genHist(r *hx.Rand, big, dense bool) histD {
 			if dense {
 				n = 12 + r.Intn(30)
 			}
-			d.Ops = append(d.Ops, opD{Op: "write", Runs: []runD{{M: m, S: sr, F: f, Typ: t, Start: int64(r.Intn(12)),
+			start := int64(r.Intn(12))
+			if dense && r.Chance(60) { // spread out: chains of files where the third overlaps the second but not the first
+				start = int64(r.Intn(90))
+			}
+			d.Ops = append(d.Ops, opD{Op: "write", Runs: []runD{{M: m, S: sr, F: f, Typ: t, Start: start,
 				Step: int64(1 + r.Intn(3)), N: n, VSeed: int64(r.Intn(50))}}})
 			if dense && r.Chance(70) { // one generation per run: many overlapping blocks once compacted
 				d.Ops = append(d.Ops, opD{Op: "snap"})
@@ -1242,6 +1290,38 @@ func designed() []histD {
 	h.Ops = append(h.Ops, opD{Op: "compact", Start: 0, Len: 3, Fast: true})
 	h.Ops = append(h.Ops, allReads("f0")...)
 	hs = append(hs, h)
+	// 7. a block consumed first, then a chain of three generations A=[10..20] B=[15..30] C=[25..40]
+	// where C overlaps B but not A; every later generation overwrites the overlap
+	h = histD{Index: "inmem", Ops: []opD{
+		{Op: "write", Runs: []runD{{M: "m0", S: "a", F: "f0", Typ: 1, Start: 0, Step: 1, N: 6, VSeed: 1}}}, {Op: "snap"},
+		{Op: "write", Runs: []runD{{M: "m0", S: "a", F: "f0", Typ: 1, Start: 10, Step: 1, N: 11, VSeed: 2}}}, {Op: "snap"},
+		{Op: "write", Runs: []runD{{M: "m0", S: "a", F: "f0", Typ: 1, Start: 15, Step: 1, N: 16, VSeed: 3}}}, {Op: "snap"},
+		{Op: "write", Runs: []runD{{M: "m0", S: "a", F: "f0", Typ: 1, Start: 25, Step: 1, N: 16, VSeed: 4}}}, {Op: "snap"},
+	}}
+	h.Ops = append(h.Ops, allReads("f0")...)
+	h.Ops = append(h.Ops, rd("f0", 3, 38, true, "iter"), rd("f0", 3, 38, false, "iter"), rd("f0", 12, 27, true, "iter"), rd("f0", 12, 27, false, "iter"))
+	hs = append(hs, h)
+	// 8. two points of one batch introduce the same new field while fields.idx already exists; restart with tsi1
+	h = histD{Index: "tsi1", Ops: []opD{
+		{Op: "write", Pts: []pointD{{"m0", "a", 1, []fieldD{i("f0", 1)}}}},
+		{Op: "write", Pts: []pointD{{"m0", "a", 2, []fieldD{i("f1", 2)}}, {"m0", "b", 2, []fieldD{i("f1", 3)}}}},
+		{Op: "reopen"},
+	}}
+	h.Ops = append(h.Ops, allReads("f1")...)
+	h.Ops = append(h.Ops, opD{Op: "write", Pts: []pointD{{"m0", "a", 3, []fieldD{fl("f1", 1.5)}}, {"m0", "a", 4, []fieldD{i("f0", 4)}}}})
+	h.Ops = append(h.Ops, allReads("f1")...)
+	h.Ops = append(h.Ops, allReads("f0")...)
+	hs = append(hs, h)
+	// 9. a 1000-slot cursor batch that ends inside a TSM block: cache values before and inside the block
+	for _, n := range []int{500, 999, 1} {
+		h = histD{Index: "inmem", Ops: []opD{
+			{Op: "write", Runs: []runD{{M: "m0", S: "a", F: "f0", Typ: 0, Start: 1000, Step: 2, N: 1000, VSeed: 1}}}, {Op: "snap"},
+			{Op: "write", Runs: []runD{{M: "m0", S: "a", F: "f0", Typ: 0, Start: 0, Step: 1, N: n, VSeed: 2}, {M: "m0", S: "a", F: "f0", Typ: 0, Start: 1201, Step: 2, N: 300, VSeed: 3}}},
+		}}
+		h.Ops = append(h.Ops, allReads("f0")...)
+		h.Ops = append(h.Ops, rd("f0", 250, 1700, true, "cursor"), rd("f0", 250, 1700, false, "cursor"), rd("f0", 1100, 2500, true, "cursor"))
+		hs = append(hs, h)
+	}
 	return hs
 }
 
